@@ -237,7 +237,10 @@ func runPropertyEnum[C any](t *testing.T, prop string, enum []C, gen func(*rapid
 		// The race detector has no false positives but may miss a race it reported before when an
 		// incidental happens-before edge (runtime caches warmed differently) hides it; the execution
 		// itself is identical. For a recorded race verdict the replay is therefore attempted a few times.
-		for i := 0; i < 8 && o.Violation == "" && strings.Contains(rf.Sig, "/race:"); i++ {
+		// Likewise for two separate processes that print different output: if the difference comes from something the
+		// processes draw from the operating system (a per-process hash seed), a pair of fresh processes shows it
+		// again only with some probability.
+		for i := 0; i < 8 && o.Violation == "" && (strings.Contains(rf.Sig, "/race:") || strings.Contains(rf.Sig, "C02/process-output")); i++ {
 			o = run(c)
 		}
 		if n := os.Getenv("VERIF_REPLAY_REPEAT"); n != "" { // debugging aid: is the verdict stable within one process?
